@@ -3,9 +3,10 @@
 (* atoms is parsed by the reference model in the requested modes; Tier-A          *)
 (* predicates are checked on the model's own results; finished behaviours are     *)
 (* printed for replay into the implementation.                                     *)
-EXTENDS Parser, TreeProps, Json
+EXTENDS Parser, TreeProps, Modes, Json
 
-CONSTANTS Atoms, K, Shard, St0, RunModes
+CONSTANTS Atoms, K, Shard, St0, RunModes,
+          ModesCfg      \* C10: documented lists of text-like macros, math-argument macros, math environments
 
 RECURSIVE Flat(_)
 Flat(sq) == IF sq = <<>> THEN <<>> ELSE Atoms[Head(sq)] \o Flat(Tail(sq))
@@ -27,6 +28,10 @@ StrictCover == (Ran("strict") /\ res["strict"].ok) => CoverStrict(s, res["strict
 TolerantCover == (Ran("tolerant") /\ res["tolerant"].ok /\ res["tolerant"].v.vk = "list") =>
                      CoverTolerant(s, res["tolerant"].v.ns)
 NoNonterm == done => \A m \in RunModes : res[m].ok \/ res[m].what # "nonterm"
+(* C10 on the model *)
+ModelModes == (Ran("strict") /\ res["strict"].ok) => ModesOK(res["strict"].v.ns, ModesCfg)
+ModelModesTolerant == (Ran("tolerant") /\ res["tolerant"].ok /\ res["tolerant"].v.vk = "list") =>
+                          ModesOK(res["tolerant"].v.ns, ModesCfg)
 (* C05 on the model: a strict failure is a located parse error *)
 StrictErrorLocated == (Ran("strict") /\ ~res["strict"].ok) =>
                           /\ res["strict"].pos >= 0 /\ res["strict"].pos <= Len(s)
